@@ -63,8 +63,12 @@ class Device:
                     elif kind == 'write':
                         base = self.ptr
                         self.written.append([base, len(arg)])
+                        if base is None or (base - (base % 1024)) not in self.erased:
+                            self.violations.append('page at %r written before it was erased' % (base,))
                         for i, b in enumerate(arg):
-                            self.flash[base + i] = b
+                            # NOR flash: programming can only clear bits; a cell that was not erased first keeps the AND with
+                            # what an earlier firmware left there (0x3c everywhere)
+                            self.flash[base + i] = self.flash.get(base + i, 0x3c) & b
                     self.state, self.status = 5, 0
                 else:
                     self.state, self.status = 10, status
@@ -146,8 +150,10 @@ def main():
         pages = (len(fw) + 1023) // 1024
         image = fw + b'\x00' * (pages * 1024 - len(fw))
         want = {0x08000000 + i: b for i, b in enumerate(image)}
-        res['flash_ok'] = dev.flash == want
+        # the flash held an older image (0x3c in every cell) before the run
+        res['flash_ok'] = all(dev.flash.get(a, 0x3c) == b for a, b in want.items()) and not (set(dev.flash) - set(want))
         res['flash_extra'] = sorted(set(dev.flash) - set(want))[:4]
+        res['flash_first_diff'] = next((hex(a) for a, b in want.items() if dev.flash.get(a, 0x3c) != b), None)
         res['pages'] = pages
     print(json.dumps(res))
 
